@@ -27,7 +27,7 @@ func init() {
 			"(algorithm, options, reference text, compared texts)",
 		Gen: func(rt *rapid.T, tier string) any {
 			pc := genPipe(rt, tier, pipeGenOpts{algos: []string{"compare", "compareW"}, faults: true, faultKinds: []string{"foreign", "missing", "extra"},
-				minTax: 4, maxTax: 10, maxTrees: 8, refine: true})
+				minTax: 4, maxTax: 10, maxTrees: 13, refine: true, maxFaults: 3})
 			pc.SwapIdx = rapid.IntRange(0, len(pc.Recs)-1).Draw(rt, "swapidx")
 			return pc
 		},
